@@ -72,8 +72,8 @@ int wv_fgetc(wv_FILE *f);
 int wv_ungetc(int c, wv_FILE *f);
 int wv_fclose(wv_FILE *f);
 wv_FILE *wv_fopen(const char *path, const char *mode);
-int wv_fflush(wv_FILE *f);
-int fprintf(wv_FILE *f, const char *fmt, ...);
+static inline int wv_fflush(wv_FILE *f) { int wv_r; return wv_r; }   /* no effect on the ghost file */
+static inline int fprintf(wv_FILE *f, const char *fmt, ...) { int wv_r; return wv_r; }   /* diagnostics only */
 
 /* R6: operator new never returns NULL (it throws); CBMC's malloc may fail */
 static inline void *wv_new(size_t n)
@@ -101,5 +101,6 @@ extern int optind;
 extern char *optarg;
 int getopt_long(int argc, char *const argv[], const char *optstring, const struct option *longopts, int *longindex);
 int sprintf(char *s, const char *fmt, ...);
+#include "wv_ghost.h"
 #endif
 #endif
